@@ -322,6 +322,14 @@ Definition group_lists (ex : executor) (sc : script) (m : Z) (members : list Z) 
   let '(s1, logs, rz) := visit_lists ex sc (groups_of m members) (hold members s) in
   (sweep (release (length members) s1), logs, rz).
 
+(* GroupBy.count / agg:  {name: len(group)} / {name: func([getattr(agent, attr) for agent in group])} over
+   self.groups.items(): a group is a weak set, its length and its iteration see the living members, in order *)
+Definition group_count (gs : list (Z * list Z)) (s : st) : list (Z * Z) :=
+  map (fun kg => (fst kg, Z.of_nat (length (filter (alive s) (snd kg))))) gs.
+Definition group_agg (f : list Z -> Z) (attr : Z -> Z) (gs : list (Z * list Z)) (s : st) : list (Z * Z) :=
+  map (fun kg => (fst kg, f (map attr (filter (alive s) (snd kg))))) gs.
+Definition zsum (l : list Z) : Z := fold_right Z.add 0 l.
+
 (* --- histories --- *)
 Inductive op :=
 | OAct (a : act)                                    (* the program itself, outside any activation *)
@@ -330,7 +338,9 @@ Inductive op :=
 | OActivate (k : akind) (s : sref) (perm : list Z) (sc : script) (scs : list script) (args : list Z)
 | OShuffleThenDo (s : sref) (perm : list Z) (sc : script) (scs : list script) (args : list Z)   (* s.shuffle().do(...) *)
 | OGroup (k : akind) (s : sref) (m : Z) (perms : list (list Z)) (sc : script) (scs : list script) (args : list Z)
-| OGroupList (s : sref) (m : Z) (sc : script) (scs : list script) (args : list Z).  (* groupby(result_type="list").do/map(callable) *)
+| OGroupList (s : sref) (m : Z) (sc : script) (scs : list script) (args : list Z)   (* groupby(result_type="list").do/map(callable) *)
+| OGroupCount (s : sref) (m : Z)                    (* groupby(...).count() *)
+| OGroupAgg (s : sref) (m : Z).                     (* groupby(...).agg("unique_id", sum) *)
 
 (* observation: the registry, the program's references and every set, in order *)
 Definition enc_ref (r : sref) : list Z :=
@@ -404,7 +414,22 @@ Definition step (s0 : st) (o : op) : st * list Z :=
           (s', flat_map (fun kl => (-34 :: fst kl :: obs_log args (snd kl))) logs
                ++ (if rz then [-37] else [-32]) ++ (-38 :: nlog s') ++ view s')
       end
+  | OGroupCount r m =>
+      match lookup r (sets s) with
+      | None => (s, [-2])
+      | Some members =>
+          if m <=? 0 then (s, [-2]) else
+          (s, (-39 :: flat_map (fun kv => [fst kv; snd kv]) (group_count (groups_of m members) s)) ++ view s)
+      end
+  | OGroupAgg r m =>
+      match lookup r (sets s) with
+      | None => (s, [-2])
+      | Some members =>
+          if m <=? 0 then (s, [-2]) else
+          (s, (-39 :: flat_map (fun kv => [fst kv; snd kv]) (group_agg zsum (fun a => a) (groups_of m members) s)) ++ view s)
+      end
   end.
+
 
 
 Fixpoint run_ops (s : st) (ops : list op) : list (list Z) :=
